@@ -663,7 +663,7 @@ def first_diff(a, b):
 
 class C03(Prop):
     id = "C03"
-    props_file = "Props/C03.v"
+    props_file = ["Props/C03.v", "Props/C03_Examples.v"]
     coq_imports = kc.COQ_IMPORTS
     n_quick = 600
     n_thorough = 5000
